@@ -225,7 +225,7 @@ func (s *sys) Ops() []string {
 	wr := []string{"-", "X", "YZ", "PQRST"}
 	wa := []string{"x", "yz", "pqrst"}
 	rd := []int{0, 1, c, 2*c + 1}
-	if s.thorough && s.maxDepth <= 3 {
+	if (s.thorough || s.file.leaf == "ident") && s.maxDepth <= 3 { // identity files need the 9-byte payload to push a child past the 128-byte identity limit
 		wr = append(wr, "ABCDEFGHI")
 		wa = append(wa, "abcdefghi")
 	}
@@ -808,7 +808,7 @@ func spec(r *eng.Run) eng.SeqSpec {
 		add("inline6-pb", 2, 0, 3)
 		add("trickle10-pb", 2, 0, 3)
 		add("trickle10-raw", 2, 8, 3)
-		add("trickle10-ident", 3, 0, 3)
+		add("trickle10-ident", 2, 0, 3)
 		add("balanced14-pb", 3, 8, 3)
 		add("trickle10-pb", 3, 8, 3)
 	} else {
